@@ -94,6 +94,19 @@ static void observe(vh_buf *b, qhasharr_t *t, const char *pfx) {
     vh_bprintf(b, "]");
 }
 
+/* copies handed out by get are retained and re-inspected after later mutations and after the handle is gone (C12) */
+static struct { unsigned char *p; int id; size_t n; } kept[64];
+static int nkept;
+static void keep(unsigned char *p, int id, size_t n) {
+    if (!p) return;
+    if (nkept < 64 && id > 0) { kept[nkept].p = p; kept[nkept].id = id; kept[nkept].n = n; nkept++; } else free(p);
+}
+static int check_kept(void) {
+    int ok = 1;
+    for (int k = 0; k < nkept; k++) { if (valid_of(kept[k].p, kept[k].n) != kept[k].id) ok = 0; free(kept[k].p); }
+    nkept = 0;
+    return ok;
+}
 static size_t msz, mapsz; static long pg;
 static unsigned char *arena[2];     /* two page-aligned mappings; the region sits at a varying offset inside */
 static int offs[] = {64, 68, 72, 80, 4096, 65, 4100};   /* 4-, 8-, 16-byte, page and odd alignments (x86 tolerates) */
@@ -143,7 +156,9 @@ int main(int argc, char **argv) {
         if (!got || !strncmp(line, "reset", 5)) {
             if (T) {
                 T->free(T);
-                vh_emit("{\"op\":\"free\",\"a\":0,\"vid\":0,\"len\":0,\"live\":%ld,\"copies_ok\":true}", vh_live_since(mark));
+                memset(mem, 0xDD, msz);                      /* the region is gone too: copies must not depend on it */
+                int cok = check_kept();
+                vh_emit("{\"op\":\"free\",\"a\":0,\"vid\":0,\"len\":0,\"live\":%ld,\"copies_ok\":%s}", vh_live_since(mark), vh_bool(cok));
                 T = NULL;
             }
             if (!got) break;
@@ -183,7 +198,7 @@ int main(int argc, char **argv) {
                 else ok = T->put(T, kb, v, (size_t) len);
             } else if (!strcmp(op, "get")) {
                 unsigned char *d = longkeys ? T->get_by_obj(T, kb, (size_t) keylen[a], &rsz) : T->get(T, kb, &rsz);
-                ok = d != NULL; rv = valid_of(d, rsz); if (!d) rsz = 0; free(d);
+                ok = d != NULL; rv = valid_of(d, rsz); if (!d) rsz = 0; keep(d, rv, rsz);
             } else if (!strcmp(op, "rm")) ok = longkeys ? T->remove_by_obj(T, kb, (size_t) keylen[a]) : T->remove(T, kb);
             else if (!strcmp(op, "rmidx")) ok = T->remove_by_idx(T, a);
             else if (!strcmp(op, "clear")) T->clear(T);
